@@ -242,7 +242,8 @@ Section MMAform.
         end
       else (st, true).
 
-    (* outer loop; result: final state, the last epsi that was used, whether its inner loop ended normally *)
+    (* outer loop; result: final state, the last epsi that was used, whether its inner loop ended normally
+       (false when the loop body never ran) *)
     Fixpoint outer (fuel : nat) (epsimin epsi : K) (st : sstate) (last : K) (ok : bool) : option (sstate * K * bool) :=
       if outer_test epsimin epsi then
         match fuel with
@@ -252,7 +253,7 @@ Section MMAform.
       else Some (st, last, ok).
 
     Definition subsolv (fuel : nat) (epsimin : K) (x0 : option (list K)) : option (sstate * K * bool) :=
-      outer fuel epsimin epsi0 (init_state D x0) epsi0 true.
+      outer fuel epsimin epsi0 (init_state D x0) epsi0 false.
   End Loop.
 End MMAform.
 
